@@ -6,6 +6,11 @@ ERRORS = [0x0, 0x1, 0x2, 0x10, 0x11, 0x12, 0x13, 0x16, 0x17, 0x1F, 0x20, 0x21, 0
           0x10001, 0x10002, 0x10003, 0x10004, 0xFFFFFF, 0xBEEF, 0x3, 0x7FFFFF]
 
 
+def addrs(rng):
+    """source addresses of client, server (and intruder): typical ones, now and then the boundary values"""
+    return list(rng.choice([(0xF9, 0xD4, 0xE0)] * 5 + [(0x00, 0xD4, 0xE0), (0xF9, 0x00, 0xE0), (0xFD, 0x01, 0xE0), (0x01, 0xFD, 0xE0)]))
+
+
 def rd(rng, nbytes=None, size=None):
     size = size or rng.choice([1, 1, 2, 4, 8])
     if nbytes is None:
@@ -50,7 +55,7 @@ def good(seed, nops=None, sizes=None):
     sec = rng.random() < 0.5
     return {"seed_key": sec, "seeds": [rng.choice([1, 2, 0xA55A, 0xFFFE, 0xBEEF, rng.randint(1, 0xFFFE)]) for _ in range(4)],
             "key_k": rng.randint(0, 65535), "lat": [rng.choice([1, 700, 5000]), rng.choice([1, 900, 5000])],
-            "ops": ops, "server": {"proceed": [True], "respond": resp}, "rseed": seed, "dur": 600000}
+            "ops": ops, "server": {"proceed": [True], "respond": resp}, "rseed": seed, "dur": 600000, "addrs": addrs(rng)}
 
 
 def failing(seed):
@@ -88,7 +93,7 @@ def failing(seed):
         seeds.append(sd)
     sc = {"seed_key": sec, "seeds": seeds, "key_k": kk, "lat": [rng.choice([1, 700]), rng.choice([1, 900])], "ops": ops,
           "server": {"proceed": proceed or [True], "respond": resp or [{"proceed": True, "data": [1]}], "absent": absent},
-          "rseed": seed, "dur": 600000, "expect_idle": True}
+          "rseed": seed, "dur": 600000, "expect_idle": True, "addrs": addrs(rng)}
     if wrongkey:
         sc["client_k"] = (kk + rng.choice([1, 2, 65535])) % 65536
     return sc
@@ -103,3 +108,31 @@ def intruded(seed, shape=None):
     r["delay"] = 30000
     return {"seed_key": sec, "seeds": [0xA55A], "key_k": 11, "lat": [700, 900], "ops": [o], "server": {"proceed": [True], "respond": [r]},
             "rseed": seed, "dur": 600000}
+
+
+def late(seed):
+    """C18: a slow serving application answers AFTER the caller's time-out: the call raises 'no response' at the time-out,
+    the late answer completes (and closes) the abandoned transaction in the background, and the operations that follow
+    behave as if nothing had happened (their own data, their own completion)"""
+    rng = random.Random(seed)
+    sec = rng.random() < 0.5
+    ops, resp = [], []
+    n = rng.randint(2, 4)
+    slow = {rng.randrange(n - 1)}
+    if n > 3 and rng.random() < 0.4:
+        slow.add(rng.randrange(n - 1))
+    for i in range(n):
+        o, r = (rd if rng.random() < 0.6 else wr)(rng, rng.choice([1, 3, 7, 8, 20]), rng.choice([1, 1, 2]))
+        if i in slow:
+            o["timeout"] = rng.choice([250000, 400000])
+            r["delay"] = o["timeout"] + rng.choice([150000, 350000])
+            o["gap"] = r["delay"] - o["timeout"] + rng.choice([300000, 500000])      # everything has settled before the next call
+        else:
+            o["timeout"] = 1000000
+            r["delay"] = rng.choice([1, 1000, 40000])
+            o["gap"] = rng.choice([1000, 150000])
+        ops.append(o)
+        resp.append(r)
+    return {"seed_key": sec, "seeds": [rng.randint(1, 0xFFFE) for _ in range(4)], "key_k": rng.randint(0, 65535),
+            "lat": [rng.choice([1, 700]), rng.choice([1, 900])], "ops": ops, "server": {"proceed": [True], "respond": resp},
+            "rseed": seed, "dur": 800000, "expect_idle": True, "addrs": addrs(rng)}
